@@ -51,6 +51,21 @@ Theorem C13_victims_equally_old_mem : forall ord l vs m,
   forall i q, In i ord -> find_id i l = Some q -> queuedb q = true -> ~ In i vs -> m_recv m <= m_recv q.
 Proof. intros ord l vs m H. exact (proj2 (mem_oldest_min ord l vs None m H)). Qed.
 
+(** the normalisation constants of the two backends (batch default/cap, default lease TTL, list and
+    filter limits), regenerated from memory.go and sqlite.go on every run, are the same numbers - the
+    model uses one set for both flavours *)
+Theorem C13_backend_constants_agree :
+  Gen.Consts.sql_dequeue_batch_default = Gen.Consts.mem_dequeue_batch_default
+  /\ Gen.Consts.sql_dequeue_batch_cap = Gen.Consts.mem_dequeue_batch_cap
+  /\ Gen.Consts.sql_dequeue_leasettl_default = Gen.Consts.mem_dequeue_leasettl_default
+  /\ Gen.Consts.sql_list_limit_default = Gen.Consts.mem_list_limit_default
+  /\ Gen.Consts.sql_list_limit_cap = Gen.Consts.mem_list_limit_cap
+  /\ Gen.Consts.sql_filter_limit_default = Gen.Consts.mem_filter_limit_default
+  /\ Gen.Consts.sql_filter_limit_cap = Gen.Consts.mem_filter_limit_cap
+  /\ Gen.Consts.mem_filter_limit_default = Gen.Consts.mem_list_limit_default
+  /\ Gen.Consts.mem_filter_limit_cap = Gen.Consts.mem_list_limit_cap.
+Proof. repeat split; reflexivity. Qed.
+
 Example C13_witness :
   let e := mkEnq (Some 7%N) 1%N 1%N None None 5%N 0%N 0%N in
   let o0 := mkOracle [] [] [] [] in
@@ -67,3 +82,4 @@ Print Assumptions C13_dequeue_agrees_when_sweeping.
 Print Assumptions C13_enqueue_agrees_partial.
 Print Assumptions C13_victims_equally_old_sql.
 Print Assumptions C13_victims_equally_old_mem.
+Print Assumptions C13_backend_constants_agree.
